@@ -369,6 +369,8 @@ class CompoundStart(Unit):
         st.ghost['resets'] = st.ghost.get('resets', 0) + 1
         for f in ('_qins', '_qouts', '_threads'):
             self.me.set(st, f, V.EMPTY)
+        for f in ('_qin', '_qout'):
+            self.me.set(st, f, NONE)
         return [('ok', st, NONE)]
 
     def slice(self):
@@ -422,6 +424,7 @@ class CompoundStart(Unit):
             cur = s.ghost[keys[0]] if keys else z3.IntVal(0)
             base = z3.And(s.ghost['failed_at'] == -1, s.ghost['nstopped'] == 0, z3.Not(self.me.get(s, '_started')), s.ghost['nthreads'] == 0, s.ghost['nstarted'] == cur, s.ghost['next_qid'] >= 0)
             if self.wiring in ('ensemble', 'switch'):
+                base = z3.And(base, box(ex, self.me.get(s, '_qin')) == self.q_in, box(ex, self.me.get(s, '_qout')) == self.q_out)
                 base = z3.And(base, z3.Length(self.me.get(s, '_qins')) == cur, *( [z3.Length(self.me.get(s, '_qouts')) == cur] if self.wiring == 'ensemble' else []))
             if self.wiring == 'sequential':
                 base = z3.And(base, z3.If(cur == 0, s.ghost['prev_out'] == -1, z3.If(cur == self.nn, s.ghost['prev_out'] == -2, s.ghost['prev_out'] >= 0)),
@@ -445,6 +448,8 @@ class CompoundStart(Unit):
                 ex.oblige(s, 'exit(started): every member servlet was started, none was stopped, helper threads (if any) are started, and the servlet is marked started',
                           z3.And(s.ghost['nstarted'] == self.nn, s.ghost['nstopped'] == 0, self.me.get(s, '_started'), *[t.get(s, 'started') for t in th]))
                 if self.wiring in ('ensemble', 'switch'):
+                    ex.oblige(s, 'exit(started): the servlet\'s own input and output queue are recorded for its forwarding / collecting threads (self._qin, self._qout)',
+                              z3.And(box(ex, self.me.get(s, '_qin')) == self.q_in, box(ex, self.me.get(s, '_qout')) == self.q_out) if self.me.has(s, '_qin') and self.me.has(s, '_qout') else z3.BoolVal(False))
                     want = [('_qins', self.nn)] + ([('_qouts', self.nn)] if self.wiring == 'ensemble' else [])
                     ex.oblige(s, 'exit(started): the per-member queue lists the forwarding / collecting threads read hold exactly one queue per member -- whatever an earlier entry left in them was discarded',
                               z3.And(*[z3.Length(self.me.get(s, f)) == n for f, n in want]))
